@@ -149,7 +149,8 @@ def u2_v2_read_msg(src, nbytes):
     if outcome == "record":
         lo = start + (0 if not src.twin else nbytes + 1)
         src.check(end > lo, "v2 record parser returned a record without advancing its cursor (the same bytes are read again)")
-        src.check(end <= len(buf), "v2 record parser left its cursor beyond the end of the buffer")
+        # (a declared key/value/header length larger than what is left is not an error for this parser: slices are
+        #  clamped, the cursor may end beyond the buffer and the next read fails cleanly -- no read outside the buffer)
         for name, v in (("key", rec.key), ("value", rec.value)):
             if v is not None:
                 src.check(len(v) <= nbytes, f"v2 record {name} is longer than the record region it was read from")
